@@ -10,7 +10,7 @@
 //! `walk_stack` (the `CfiStackWalker` callbacks) of amd64, x86 and arm over a rule menu that includes
 //! values wider than a 32-bit register.
 use breakpad_symbols::{FrameWalker, SimpleModule, SymbolFile};
-use minidump::format::{CONTEXT_AMD64, CONTEXT_ARM, CONTEXT_ARM64, CONTEXT_X86};
+use minidump::format::{CONTEXT_AMD64, CONTEXT_ARM, CONTEXT_ARM64, CONTEXT_MIPS, CONTEXT_X86};
 use minidump::system_info::{Cpu, Os};
 use minidump::{CpuContext, MinidumpContext, MinidumpContextValidity, MinidumpMemory, MinidumpModule, MinidumpModuleList, MinidumpRawContext, UnifiedMemory};
 use minidump_unwind::{string_symbol_supplier, walk_stack, CallStack, FrameTrust, SystemInfo, Symbolizer};
@@ -536,6 +536,13 @@ const WALK_CPUS: &[WalkCpu] = &[
         callee_saved: &["x19", "x20", "x21", "x22", "x23", "x24", "x25", "x26", "x27", "x28", "fp"], ip_adjust: 4,
         callee: &[("pc", MOD + 0x1010), ("sp", STACK), ("fp", STACK + 7 * 8), ("x19", 0x1919), ("x20", 0x2020), ("lr", MOD + 0x5510)],
     },
+    // 32-bit MIPS: a 32-bit machine whose context keeps 64-bit register slots (values are stored as computed,
+    // not sign-extended)
+    WalkCpu {
+        name: "mips32", kind: "mips", arch: "mips", w: 4, sigil: "$", ip: "pc", sp: "sp", fp: "fp", regs: [&["s0"], &["s1"], &["ra"]], rules: WALK_RULES, helper: "s2",
+        callee_saved: &["s0", "s1", "s2", "s3", "s4", "s5", "s6", "s7", "gp", "sp", "fp"], ip_adjust: 8,
+        callee: &[("pc", MOD + 0x1010), ("sp", STACK), ("fp", STACK + 7 * 4), ("s0", 0x5050), ("s1", 0x5151), ("s2", 0x5252), ("ra", MOD + 0x5510)],
+    },
 ];
 const ARM_CALLEE_SAVED: &[&str] = &["r4", "r5", "r6", "r7", "r8", "r9", "r10", "fp"];
 
@@ -649,6 +656,7 @@ fn walk_context(cpu: &WalkCpu) -> MinidumpRawContext {
         "x86" => fill!(CONTEXT_X86, X86, u32),
         "arm" => fill!(CONTEXT_ARM, Arm, u32),
         "arm64" => fill!(CONTEXT_ARM64, Arm64, u64),
+        "mips" => fill!(CONTEXT_MIPS, Mips, u64),
         _ => unreachable!(),
     }
 }
@@ -689,6 +697,7 @@ fn walk_space(cpu: &'static WalkCpu) -> Space {
             "amd64" => Cpu::X86_64,
             "x86" => Cpu::X86,
             "arm" => Cpu::Arm,
+            "mips" => Cpu::Mips,
             _ => Cpu::Arm64,
         };
         let si = SystemInfo { os: Os::Linux, os_version: None, os_build: None, cpu: cpu_kind, cpu_info: None, cpu_microcode_version: None, cpu_count: 1 };
@@ -823,7 +832,7 @@ fn main() {
         let mut def = CheckDef::new(
             "C06",
             "exploration",
-            "bounded-exhaustive differential: (expr) every token sequence of length 0..=L over the 26-token alphabet (and, beyond L, every WELL-FORMED — stack never underflows, one value left — expression of exactly L+1 tokens over the full alphabet and of L+2 tokens over a reduced value alphabet) hosted in the .cfa rule, the .ra rule and a general-register rule of a one-record symbol file, each evaluated by the real parser + SymbolFile::walk_frame through a mock FrameWalker on 4 register files (+ the unreadable-memory image when memory is used) and compared (Some/None, cfa, ra, final set/cleared/untouched state of every caller register) with the reference interpreter vh::refcfi; (structure) every INIT rule list (1-2 fragments, or base + 0-1) x two delta records (the first in the file 0..=D fragments, the second 0..=1) x 5 address layouts (file order reversed, at the range bounds, below the INIT start, at the range end) with neighbour records before and after, looked up at 10 addresses + below the module base on 2 register files; (<cpu>-walk_stack, cpu in amd64 | x86 | arm) 10^3 register rule choices (per register: no rule, saved on the stack, .undef, computed from another register, unknown register name, and five register-width rules: `4 .cfa -`, `.cfa 4294967296 +`, `4294967296`, `4294967295`, `.cfa 4294967296 + 4294967296 -`) for two callee-saved registers and one caller-saved register x 2 cfa x 2 ra rules (both fit the register) x 4 callee validity sets through the real walk_stack with a real CONTEXT_AMD64 / CONTEXT_X86 / CONTEXT_ARM and register-sized stack words; the 64-bit reference is projected on the register width: a register rule whose value does not fit the register leaves that register unknown in the caller frame and changes nothing else; (arm-alias-walk_stack with CONTEXT_ARM, arm64-walk_stack with CONTEXT_ARM64: label spellings) rules for the frame pointer (callee-saved; labels `fp:` | `r11:` on ARM, `fp:` | `x29:` on ARM64), one callee-saved register with a single name (r4 / x19) and the link register (never forwarded; `lr:` | `r14:` on ARM, `lr:` | `x30:` on ARM64): per register no rule, or one of 6 rules (saved on the stack, .undef, computed from another register, `4294967296`, `4294967295`, and `4 .cfa -` on ARM / an unknown register name on ARM64) under each spelling of its label — 13 x 7 x 13 choices — x 2 cfa x 2 ra rules x 4 callee validity sets; a record never carries two spellings of one register; same oracle, the caller register is read by its canonical name: whatever the spelling of the label, a rule that evaluates to a representable value sets the register and a rule that fails or whose value is not representable leaves it unknown. distinct_nontrivial = distinct (host, register file, memory image, reference outcome incl. values) for expr; distinct (rule lines in effect, register file) for structure; distinct (validity, reference outcome per label as spelled) for the walk.",
+            "bounded-exhaustive differential: (expr) every token sequence of length 0..=L over the 26-token alphabet (and, beyond L, every WELL-FORMED — stack never underflows, one value left — expression of exactly L+1 tokens over the full alphabet and of L+2 tokens over a reduced value alphabet) hosted in the .cfa rule, the .ra rule and a general-register rule of a one-record symbol file, each evaluated by the real parser + SymbolFile::walk_frame through a mock FrameWalker on 4 register files (+ the unreadable-memory image when memory is used) and compared (Some/None, cfa, ra, final set/cleared/untouched state of every caller register) with the reference interpreter vh::refcfi; (structure) every INIT rule list (1-2 fragments, or base + 0-1) x two delta records (the first in the file 0..=D fragments, the second 0..=1) x 5 address layouts (file order reversed, at the range bounds, below the INIT start, at the range end) with neighbour records before and after, looked up at 10 addresses + below the module base on 2 register files; (<cpu>-walk_stack, cpu in amd64 | x86 | arm | mips32) 10^3 register rule choices (per register: no rule, saved on the stack, .undef, computed from another register, unknown register name, and five register-width rules: `4 .cfa -`, `.cfa 4294967296 +`, `4294967296`, `4294967295`, `.cfa 4294967296 + 4294967296 -`) for two callee-saved registers and one caller-saved register x 2 cfa x 2 ra rules (both fit the register) x 4 callee validity sets through the real walk_stack with a real CONTEXT_AMD64 / CONTEXT_X86 / CONTEXT_ARM / CONTEXT_MIPS (32-bit flavour) and register-sized stack words; the 64-bit reference is projected on the register width: a register rule whose value does not fit the register leaves that register unknown in the caller frame and changes nothing else; (arm-alias-walk_stack with CONTEXT_ARM, arm64-walk_stack with CONTEXT_ARM64: label spellings) rules for the frame pointer (callee-saved; labels `fp:` | `r11:` on ARM, `fp:` | `x29:` on ARM64), one callee-saved register with a single name (r4 / x19) and the link register (never forwarded; `lr:` | `r14:` on ARM, `lr:` | `x30:` on ARM64): per register no rule, or one of 6 rules (saved on the stack, .undef, computed from another register, `4294967296`, `4294967295`, and `4 .cfa -` on ARM / an unknown register name on ARM64) under each spelling of its label — 13 x 7 x 13 choices — x 2 cfa x 2 ra rules x 4 callee validity sets; a record never carries two spellings of one register; same oracle, the caller register is read by its canonical name: whatever the spelling of the label, a rule that evaluates to a representable value sets the register and a rule that fails or whose value is not representable leaves it unknown. distinct_nontrivial = distinct (host, register file, memory image, reference outcome incl. values) for expr; distinct (rule lines in effect, register file) for structure; distinct (validity, reference outcome per label as spelled) for the walk.",
         );
         def.assumptions = vec![
             "the reference is written from the module documentation of walker.rs and the property statement; '@' truncates the lhs to a multiple of the rhs, which must be a power of two; zero is not a power of two".into(),
